@@ -21,7 +21,7 @@ def _tok(t):
         if hasattr(t, attr):
             d[attr] = tuple((s.encoding, s.category.name) for s in getattr(t, attr))
     if hasattr(t, 'notes_tokens'):
-        d['notes'] = tuple(tuple(sorted(_tok(n).items(), key=lambda kv: kv[0])) for n in t.notes_tokens)
+        d['notes'] = tuple(_tok(n) for n in t.notes_tokens)
     return tuple(sorted(d.items(), key=lambda kv: kv[0]))
 
 
